@@ -57,7 +57,7 @@ Fixpoint merge_back (tbl : list (string * clone_kind)) (parent child : cstate) :
   end.
 
 (** ** mutators *)
-Inductive ctx := CParen | CCmdSubst | CBackquote | CPipeFirst | CPipeLast | CBackground
+Inductive ctx := CParen | CCmdSubst | CBackquote | CPipeFirst | CPipeMid | CPipeLast | CBackground
                | CProcSubstIn | CProcSubstOut | CCoproc.
 
 (** ** options that decide where a pipeline stage runs *)
@@ -79,13 +79,18 @@ Definition is_subshell (o : popts) (c : ctx) : bool :=
   | _ => true
   end.
 
+(** how a background job is collected afterwards *)
+Inductive collect := CollNone | CollWait | CollWaitSpec | CollWaitPid | CollJobs | CollFg.
+
 Inductive mut :=
-| MField (f : string) (v : content)     (* any builtin/assignment whose effect lives in field f *)
+| MField (f : string) (v : content)     (* any builtin/assignment whose effect lives in field f; an assignment-only
+                                           pipeline stage is [MSub CPipe* [MField env _]] *)
 | MUmask (z : Z)
 | MUlimit (z : Z)                       (* ulimit -n z *)
 | MExit (n : Z)
 | MReturn (n : Z)
 | MCall (body : list mut)               (* a function call in the current shell *)
+| MBg (how : collect) (body : list mut) (* `{ body; } &` / `f &` / `while …; done &`, then the collection step *)
 | MSub (c : ctx) (body : list mut).
 
 Inductive flow := Go | Exited | Returned.
@@ -111,6 +116,13 @@ Fixpoint run_mut (o : popts) (m : mut) (w : world) {struct m} : world * flow :=
   | MCall body =>
       let '(w', fl) := run_seq (run_mut o) body w in
       (w', match fl with Returned => Go | f => f end)
+  | MBg how body =>
+      (* the job is an in-process task on a clone; `wait`, `wait %n`, `wait $!`, `jobs` discard the
+         task's ExecutionResult (wait.rs); `fg` (fg.rs) returns it whole, control flow included *)
+      let child : world := (clone_shell (fst w), snd w) in
+      let '(w', fl) := run_seq (run_mut o) body child in
+      ((cset status_field [lit "?"] (merge_back shell_clone_table (fst w) (fst w')), snd w'),
+       match how, fl with CollFg, Exited => Exited | _, _ => Go end)
   | MSub c body =>
       if is_subshell o c then
         let child : world := (clone_shell (fst w), snd w) in
@@ -130,7 +142,7 @@ Definition run_list (o : popts) : list mut -> world -> world * flow := run_seq (
 Fixpoint touches_pg (m : mut) : bool :=
   match m with
   | MUmask _ | MUlimit _ => true
-  | MSub _ body | MCall body => existsb touches_pg body
+  | MSub _ body | MCall body | MBg _ body => existsb touches_pg body
   | _ => false
   end.
 
